@@ -17,6 +17,8 @@ import PrqlModel.Drv.Names
 import PrqlModel.Drv.Text
 import PrqlModel.Drv.Order
 import PrqlModel.Drv.Expr
+import PrqlModel.Drv.Rq
+import PrqlModel.Drv.Scope
 namespace Drv
 
 def handlers : List (List String → Option String) := [
@@ -32,7 +34,9 @@ def handlers : List (List String → Option String) := [
   Drv.Names.handle,
   Drv.Text.handle,
   Drv.Order.handle,
-  Drv.Expr.handle
+  Drv.Expr.handle,
+  Drv.Rq.handle,
+  Drv.Scope.handle
 ]
 
 def handle (fields : List String) : String :=
